@@ -322,9 +322,21 @@ class StmtMixin:
                 for f in set(r1_.fields) | set(r2_.fields):
                     v1, v2 = r1_.fields.get(f), r2_.fields.get(f)
                     if v1 is None or v2 is None:
-                        # lazily materialised on one side: same initial constant by construction
-                        r2_.fields[f] = v1 if v2 is None else v2
-                        continue
+                        # lazily materialised on one side only -- and possibly WRITTEN there afterwards: materialise the pre-state value on the
+                        # other side too (same symbol by construction) and merge like any other field
+                        saved_heap = run.heap
+                        try:
+                            run.heap = heap2 if v2 is None else heap1
+                            missing = self.getattr(VRef(oid, "obj", r1_.cls), f)
+                        except (E.Unsupported, E.PyExc):
+                            run.heap = saved_heap
+                            return fail()
+                        finally:
+                            run.heap = saved_heap
+                        if v2 is None:
+                            v2 = missing
+                        else:
+                            v1 = missing
                     m = self.merge_value(t, v1, v2)
                     if m is None:
                         return fail()
